@@ -184,6 +184,12 @@ func runReattachCase(c raCase, bin, tmp string) []map[string]interface{} {
 			} else {
 				res = "err:" + err.Error()
 			}
+		case "Freeze":
+			if pid != 0 {
+				syscall.Kill(pid, syscall.SIGSTOP)
+				time.Sleep(30 * time.Millisecond)
+			}
+			res = "stopped"
 		case "Crash":
 			// the plugin dies without any shutdown; its socket file stays behind
 			if pid != 0 {
@@ -209,6 +215,9 @@ func runReattachCase(c raCase, bin, tmp string) []map[string]interface{} {
 		evs = append(evs, ev)
 	}
 	// cleanup
+	if pid != 0 {
+		syscall.Kill(pid, syscall.SIGCONT)
+	}
 	for _, cl := range clients {
 		cl.Kill()
 	}
